@@ -940,6 +940,80 @@ func runC02(c *core.Ctx) core.Meta {
 		}
 	}
 
+	// ---------------- R02.11 load lanes are matched to a transaction register by register ----------------
+	st11 := c.Rule("R02.11", "the load coalescer creates one read per cache line that any destination dword of any active lane touches, and on return writes the registers listed in the transaction's lane info: the function that builds the lane info (stores VectorMemAccessInfo.laneInfo) walks lanes and registers, and every same-cache-line test that guards an entry takes the address of that very register (it depends on the lane index and on the register index). A test on the lane's base address alone drops the trailing dwords of a multi-dword load that straddles a cache line: those registers are never written and keep stale values, while the emulator reads every dword", 1)
+	{
+		pcu := NewPkgInfo(c, cuPkg)
+		for _, fn := range pcu.Funcs {
+			stores := false
+			for _, b := range fn.Blocks {
+				for _, in := range b.Instrs {
+					if _, ok := storeToField(in, "VectorMemAccessInfo.laneInfo"); ok {
+						stores = true
+					}
+				}
+			}
+			if !stores {
+				continue
+			}
+			c.MarkAnalysed(fn)
+			var ivs []*ssa.Phi
+			for _, b := range fn.Blocks {
+				for _, in := range b.Instrs {
+					phi, ok := in.(*ssa.Phi)
+					if !ok {
+						break
+					}
+					for _, e := range phi.Edges {
+						if bo, ok := e.(*ssa.BinOp); ok && bo.Op == token.ADD && bo.X == ssa.Value(phi) {
+							if k, isC := core.ConstInt(bo.Y); isC && k == 1 {
+								ivs = append(ivs, phi)
+							}
+						}
+					}
+				}
+			}
+			type lineTest struct {
+				call *ssa.Call
+				deps int
+			}
+			var tests []lineTest
+			maxDeps := 0
+			for _, b := range fn.Blocks {
+				for _, in := range b.Instrs {
+					call, ok := in.(*ssa.Call)
+					if !ok {
+						continue
+					}
+					cal := call.Call.StaticCallee()
+					if cal == nil || cal.Pkg != pcu.Pkg || (cal.Name() != "isInSameCacheLine" && cal.Name() != "cacheLineID") || len(call.Call.Args) < 2 {
+						continue
+					}
+					deps := 0
+					for _, iv := range ivs {
+						iv := iv
+						if dependsOn(call.Call.Args[1], func(v ssa.Value) bool { return v == ssa.Value(iv) }, map[ssa.Value]bool{}) {
+							deps++
+						}
+					}
+					tests = append(tests, lineTest{call, deps})
+					if deps > maxDeps {
+						maxDeps = deps
+					}
+				}
+			}
+			for _, t := range tests {
+				st11.Instances++
+				ok := t.deps == maxDeps || maxDeps < 2
+				st11.Ob(ok)
+				st11.Sample("%s: cache-line test on an address that depends on %d of the function's loop indices (lane, register)", core.FuncName(fn), t.deps)
+				if !ok {
+					c.ReportAt("R02.11", fn, t.call.Pos(), "lane-filter:base-address", "a same-cache-line test in "+core.FuncName(fn)+" takes an address that does not depend on the register index: a lane of a multi-dword load whose base lies in another cache line is dropped from this transaction although its trailing dwords belong to it; their destination registers are never written in timing mode")
+				}
+			}
+		}
+	}
+
 	// ---------------- R02.10 the coalescer applies the signed FLAT offset (c03flat.go) ----------------
 	checkFlatOffsetSigned(c, "R02.10", []string{cuPkg}, 1)
 
